@@ -70,9 +70,9 @@ class Layout:
             o = opts()
             pp = models.printer(I, **o)
             lv = level() if callable(level) else (level if level is not None else SNum.sym("level", 0, None))
-            return pp, [make_composite()], {"level": lv}  # level by name: it may be keyword-only
+            return pp, [make_composite()], models.fmt_level_kw(I.repo, lv)  # level by name: it may be keyword-only
 
-        outs = I.explore("pprint.PrettyPrinter._format", make)
+        outs = I.explore(models.fmt_qual(I.repo), make)
         return [(o.assumptions, o.kind, o.value if o.kind == "return" else o.exc) for o in outs]
 
     def pprint_text(self, make_composites: Callable[[], Any], opts: Callable[[], dict], fork=True) -> list:
